@@ -755,6 +755,33 @@ def refine_site(net):
     return out
 
 
+def run_order_site(repo, net, gkf):
+    """round 9: the sites behind Model/ExportRerun.lean (`start`: refine_obsdh_reductions(IS) once before the loop; the
+    export after the loop) and Model/ExportRemoved.lean (the abs-term stage once, before the loop; export_xml never
+    consults obs->active(); the parser never makes an observation passive)"""
+    main = strip_comments((Path(repo) / "src/gama-local.cpp").read_text())
+    def pos(rx):
+        ms = list(re.finditer(rx, main))
+        return [m.start() for m in ms]
+    p_obsdh = pos(r"\brefine_obsdh_reductions\s*\(\s*IS\s*\)\s*;")
+    p_rm = pos(r"IS->remove_huge_abs_terms\s*\(\s*\)\s*;")
+    p_ref = pos(r"IS->refine_adjustment\s*\(\s*\)")
+    p_exp = pos(r"IS->export_xml\s*\(")
+    p_acord = pos(r"\bAcord2\s+acord2\s*\(")
+    if len(p_ref) != 1 or len(p_exp) != 1:
+        raise DocError(f"gama-local.cpp: refine_adjustment called {len(p_ref)} times, export_xml {len(p_exp)} times")
+    out = {}
+    out["obsdhBeforeLoop"] = len(p_obsdh) == 1 and len(p_acord) == 1 and p_acord[0] < p_obsdh[0] < p_ref[0]
+    out["absStageOnceBeforeLoop"] = len(p_rm) == 1 and p_rm[0] < p_ref[0] and (not p_obsdh or p_obsdh[0] < p_rm[0])
+    out["exportAfterLoop"] = p_ref[0] < p_exp[0]
+    eb = body_of(net, r"std::string\s+LocalNetwork::export_xml\s*\(\s*std::string\s+\w+\s*\)\s*\{", "export_xml")
+    act = re.findall(r"([\w\]\)>.\-]*)\s*(?:\.|->)\s*(active|passive)\s*\(\s*\)", eb)
+    other = [a for a in act if not re.fullmatch(r"point", a[0])]
+    out["exportConsultsObsActive"] = bool(other)
+    out["parserSetsPassive"] = bool(re.search(r"set_passive\s*\(|set_active\s*\(", gkf))
+    return out
+
+
 def generate(repo):
     repo = Path(repo)
     gkf = strip_comments((repo / "lib/gnu_gama/xml/gkfparser.cpp").read_text())
@@ -784,6 +811,7 @@ def generate(repo):
     W = writer(net, obs)
     DG = parse_degrees(gkf)
     RF = refine_site(net)
+    RO = run_order_site(repo, net, gkf)
 
     if P["attrs"] != ["id", "y", "x", "z", "fix", "adj"] and sorted(P["attrs"]) != ["adj", "fix", "id", "x", "y", "z"]:
         raise DocError(f"process_point: attributes {P['attrs']}")
@@ -799,7 +827,7 @@ def generate(repo):
     role_of = {v: k for k, v in P["roles"].items()}       # attribute name -> role
     L = ["/-",
          "  GENERATED by tools/gen/c13_doc.py from gkfparser.cpp, lcoords.h, network.cpp (export_xml, updated_xml_covmat,",
-         "  set_algorithm) and observation.cpp (DisplayObservationVisitor) — do not edit.",
+         "  set_algorithm), observation.cpp (DisplayObservationVisitor) and src/gama-local.cpp (order of the stages) — do not edit.",
          "-/",
          "namespace Gama.Gen.GkfDoc",
          "",
@@ -928,6 +956,17 @@ def generate(repo):
           f"def refineZ : Bool × Nat := ({'true' if RF['z'][0] else 'false'}, {RF['z'][1][0]})",
           "/-- refine_adjustment is `while (next) { refine = obsdh(); if (!refine) refine = Test(); if (!refine) refine = obsdh(adjusted); if (!refine) break; ++it; refine_approx_coordinates(); }` -/",
           f"def refineLoopShape : Bool := {'true' if RF['loop'] else 'false'}", "",
+          "/-! ## src/gama-local.cpp: the order of the stages (round 9) -/", "",
+          "/-- `Acord2 acord2(…)`, then exactly one `refine_obsdh_reductions(IS);`, then the one `IS->refine_adjustment()` -/",
+          f"def obsdhBeforeLoop : Bool := {'true' if RO['obsdhBeforeLoop'] else 'false'}",
+          "/-- exactly one `IS->remove_huge_abs_terms();`, after that call and before `IS->refine_adjustment()` -/",
+          f"def absStageOnceBeforeLoop : Bool := {'true' if RO['absStageOnceBeforeLoop'] else 'false'}",
+          "/-- the one `IS->export_xml(…)` comes after `IS->refine_adjustment()` -/",
+          f"def exportAfterLoop : Bool := {'true' if RO['exportAfterLoop'] else 'false'}",
+          "/-- export_xml calls `active()` / `passive()` on something other than `point` (false: every observation of OD is written) -/",
+          f"def exportConsultsObsActive : Bool := {'true' if RO['exportConsultsObsActive'] else 'false'}",
+          "/-- gkfparser.cpp calls `set_passive` / `set_active` (false: every parsed observation is active) -/",
+          f"def parserSetsPassive : Bool := {'true' if RO['parserSetsPassive'] else 'false'}", "",
           "/-- `latitude` is written in gons (`latitude()*200/M_PI`), the unit process_parameters reads -/",
           f"def latitudeInGons : Bool := {'true' if W['consts']['latitudeInGons'] else 'false'}", "",
           "/-- `set_algorithm`: known names, and the one an unknown name is replaced by -/",
